@@ -158,6 +158,40 @@ fn c03_tables() {
     println!("NONE {}", cases);
 }
 
+
+/// C01 (hang/panic): render with a watchdog thread
+fn render_timeout(html: String, w: usize, mww: Option<usize>, pad: bool) -> Result<(), String> {
+    use std::sync::mpsc;
+    let (tx, rx) = mpsc::channel();
+    std::thread::spawn(move || {
+        let r = panic::catch_unwind(|| {
+            let mut c = config::plain();
+            if let Some(m) = mww { c = c.max_wrap_width(m); }
+            if pad { c = c.pad_block_width(); }
+            let _ = c.string_from_read(html.as_bytes(), w);
+        });
+        let _ = tx.send(r.is_ok());
+    });
+    match rx.recv_timeout(std::time::Duration::from_secs(2)) {
+        Ok(true) => Ok(()),
+        Ok(false) => Err("panic".into()),
+        Err(_) => Err("no result after 2 s (non-termination)".into()),
+    }
+}
+
+/// C01: text engine totality over small documents, widths and wrap widths
+fn c01_engine() {
+    let docs = ["<p>a b</p>", "<pre> x y</pre>", "<pre>a\tb</pre>", "<ul><li><pre> </pre></li></ul>", "<p>\u{4e2d} \u{4e2d}</p>", "<blockquote><pre>  a  </pre></blockquote>", "<ol><li> <li>x</ol>", "<pre>\n \n</pre>"];
+    let mut cases = 0u64;
+    for d in docs { for w in 1..=6usize { for mww in [None, Some(0usize), Some(1), Some(2)] { for pad in [false, true] {
+        cases += 1;
+        if let Err(e) = render_timeout(d.to_string(), w, mww, pad) {
+            found("c01_engine", &format!("width={} max_wrap_width={:?} pad_block_width={} html={}", w, mww, pad, d), &e);
+        }
+    }}}}
+    println!("NONE {}", cases);
+}
+
 fn main() {
     let mode = std::env::args().nth(1).unwrap_or_default();
     panic::set_hook(Box::new(|_| {}));
@@ -165,6 +199,7 @@ fn main() {
         "c19" => c19(),
         "c19_inherit" => c19_inherit(),
         "dbg" => dbg(),
+        "c01_engine" => c01_engine(),
         "c02_tables" => c02_tables(),
         "c03_tables" => c03_tables(),
         _ => { eprintln!("unknown mode"); std::process::exit(2) }
